@@ -245,3 +245,35 @@ u = Unit("compress.from_composer.index_assignment", CP, "CompressedCircuit::from
          trace_only=True, tracked=("scalars", "polynomials"), consts={"BlsScalar::SIZE": 32})
 u.extra_contracts = FC
 UNITS.append(u)
+
+
+# ------------------------------------------------------------------ unpack_bounded: every collection is read under ITS OWN bound
+def c_unpack_bounded(it, recv, a):
+    """hades flag; public inputs (at most max_constraints); witness count; scalars (at most 11 * max_constraints: eleven selector
+    values per row); polynomials and constraints (at most max_constraints each); InvalidCompressedCircuit if the product overflows, if
+    any read fails or exceeds its bound, or if bytes are left over"""
+    mc = a[1]
+    X = it.ctx.exits
+    ms = VOpaque("checked_mul", [mc, 11])
+    X.append(("try", f"{canon(ms)} is None => Err(Error::InvalidCompressedCircuit)"))
+    lim = VOpaque("some_of", [ms])
+    for k, (what, bound) in enumerate([("unpack", None), ("unpack_vec", mc), ("unpack", None), ("unpack_vec", lim), ("unpack_vec", mc), ("unpack_vec", mc)]):
+        it.ctx.event(what, *([canon(bound)] if bound is not None else []))
+        X.append(("try", f"reader.{what} #{k} fails => Err"))
+    X.append(("err_if", VOpaque("not", [VOpaque("is_empty", [VOpaque("reader")])]), "Error::InvalidCompressedCircuit"))
+    return VOk(VOpaque("havoc:circuit"))
+
+
+def rd(what):
+    def f(it, recv, a):
+        k = sum(1 for e_ in it.ctx.log if e_ and e_[0] in ("unpack", "unpack_vec"))
+        it.ctx.event(what, *[canon(x) for x in a])
+        return ("fallible", f"reader.{what} #{k} fails => Err", VOpaque(f"item{k}"))
+    return f
+
+
+u = Unit("compress.unpack_bounded", CP, "CompressedCircuit::unpack_bounded", [("packed", sym("packed")), ("max_constraints", sym("max_constraints"))],
+         c_unpack_bounded, lambda res, args, ctx: {"reads": list(ctx.log), "exits": list(ctx.exits)})
+u.extra_contracts = {"PackedCircuitReader::new": lambda it, recv, a: VOpaque("reader"), ".unpack": rd("unpack"), ".unpack_vec": rd("unpack_vec"),
+                     ".is_empty": lambda it, recv, a: VOpaque("is_empty", [recv])}
+UNITS.append(u)
